@@ -330,6 +330,8 @@ def coll_suite(tier, cfgs, extra="", fams=("member",), need=()):
                 ("small", "identity", "constant", "--maxns 4 --bs 2000 --sizes 1,4 --L 3 --B 2 --arena 8192", ("reserved_from_arena",)),
                 # later blocks at LOWER addresses than earlier ones
                 ("array", "log2", "constant", "--maxns 16 --bs 192 --sizes 8,16 --arrays 3x8 --L 3 --B 3 --place desc", ("grew",)),
+                # arrays with more elements than nodes (element size below the bucket's node size)
+                ("array", "log2", "constant", "--maxns 16 --bs 192 --sizes 8,1 --arrays 8x1,5x1 --L 4 --B 2", ("reserved_from_arena",)),
             ]
             if not q:
                 shapes += [
@@ -564,8 +566,9 @@ def check_C12(prop, tier, only):
     # moves between DIFFERENTLY shaped collections (the second object has another max_node_size: every member that describes the
     # array of free lists has to move, not only the pointer)
     for cfg in (c[:1] if tier == "quick" else c):
-        for a_, b_ in ((16, 8), (8, 16)):
-            jobs.append(J("h_coll", cfg, f"--type array --buckets log2 --src constant --maxns {a_} --maxns2 {b_} --bs 192 --sizes 8,16 --L 2 --B 2 --arena 2048 --moves 2",
+        # (at least two buckets on both sides: a single-bucket collection is outside the documented block size requirement in fence configurations)
+        for a_, b_ in ((32, 16), (16, 32)):
+            jobs.append(J("h_coll", cfg, f"--type array --buckets log2 --src constant --maxns {a_} --maxns2 {b_} --bs 640 --sizes 8,32 --L 2 --B 2 --arena 4096 --moves 2",
                           name=f"coll/array/log2/constant[{cfg}] maxns {a_} vs {b_} --moves 2", need=("moveassigned_while_nonempty", "swapped"), moves=True))
     ej = []
     for cfg in ("rwd", "dbg"):
